@@ -36,7 +36,7 @@ def run(tier):
             case = {"part": "replay", "actions": [s["a"] for s in steps], "last_action": steps[-1]["a"], "want": m["want"]}
             v.violation(case, {"steps": steps, "want": m["want"], "got": m["got"]})
         nb = vf.run_json([b, "bytes", os.path.join(d, "t.ndjson"), str(nfiles)], env=env, timeout=3000)
-        viols, events, _ = vf.monitor_trace("DirSumTrace", "DirSumTrace.cfg", os.path.join(d, "t.ndjson"), max_events=40000)
+        viols, events, _ = vf.monitor_trace("DirSumTrace", "DirSumTrace.cfg", os.path.join(d, "t.ndjson"), max_events=40000, independent=True)
         if viols:
             lines = open(os.path.join(d, "t.ndjson")).read().split("\n")
         for lno, cid, want, got in viols[:200]:
